@@ -6,6 +6,7 @@ import (
 	"errors"
 	"fmt"
 	"io"
+	"os"
 	"sync/atomic"
 
 	"cuelabs.dev/go/oci/ociregistry"
@@ -33,6 +34,7 @@ type c04Script struct {
 	Mode     string `json:"resume_mode"`      // explicit, minus1, alternate
 	BadAt    int    `json:"bad_resume_at"`    // boundary index at which a bad resume is tried first (-1 none)
 	BadKind  string `json:"bad_kind"`         // plus1, minus1, zero
+	BadVia   string `json:"bad_via,omitempty"` // how the mis-positioned data is flushed: "" = Close (PATCH), "commit" = Commit (PUT)
 	Wrong    bool   `json:"commit_wrong_digest"`
 }
 
@@ -78,7 +80,10 @@ func c04Stack(name string, minChunk int) ociregistry.Interface {
 	case "mem":
 		return c04Backend(minChunk)
 	case "http1":
-		c, _ := httpStack(c04Backend(minChunk), nil, nil)
+		c, tr := httpStack(c04Backend(minChunk), nil, nil)
+		if os.Getenv("C04_DEBUG") != "" {
+			tr.Log = func(s string) { fmt.Println("  HTTP:", s) }
+		}
 		return c
 	case "http2":
 		inner, _ := httpStack(c04Backend(minChunk), nil, nil)
@@ -160,17 +165,26 @@ func c04Run(r *vcore.Run, sc c04Script) (ops int64) {
 					if err == nil {
 						piece := content[off : off+p]
 						_, werr := wb.Write(piece)
-						cerr := wb.Close()
+						var cerr error
+						switch {
+						case werr != nil:
+							// already refused (direct stacks, or a client flush forced by the write itself)
+							wb.Close()
+						case sc.BadVia == "commit":
+							_, cerr = wb.Commit(sha256Digest(content[:off+p]))
+						default:
+							cerr = wb.Close()
+						}
 						ops += 2
 						rerr := werr
 						if rerr == nil {
 							rerr = cerr
 						}
 						if rerr == nil {
-							viol("bad-resume-accepted/"+sc.BadKind, "data at a wrong offset refused with a range-invalid error", fmt.Sprintf("write at offset %d accepted while the registry has %d bytes", bad, size))
+							viol("bad-resume-accepted/"+sc.BadKind+sc.BadVia, "data at a wrong offset refused with a range-invalid error", fmt.Sprintf("write at offset %d accepted while the registry has %d bytes", bad, size))
 							return
 						} else if !errors.Is(rerr, ociregistry.ErrRangeInvalid) {
-							viol("bad-resume-wrong-error/"+sc.BadKind, "errors.Is(err, ErrRangeInvalid) (HTTP 416)", rerr.Error())
+							viol("bad-resume-wrong-error/"+sc.BadKind+sc.BadVia, "errors.Is(err, ErrRangeInvalid) (HTTP 416)", rerr.Error())
 						}
 						// a second attempt on the same mis-positioned writer must be refused too (direct stacks keep the writer usable)
 						if sc.Stack == "mem" || sc.Stack == "uni" {
@@ -380,6 +394,8 @@ func c04Scripts(thorough bool) []c04Script {
 										}
 										b := base
 										b.BadAt, b.BadKind = i, kind
+										out = append(out, b)
+										b.BadVia = "commit"
 										out = append(out, b)
 									}
 								}
